@@ -1778,6 +1778,8 @@ fn clear_world() {
     w(|w| w.timers.clear());
 }
 
+include!("../inc/resalloc.rs");
+
 fn main() {
     // registered before the runtime's thread-locals: destroyed after them
     PARKED.with(|p| p.borrow_mut().reserve(1));
@@ -1825,6 +1827,7 @@ fn main() {
             idx,
             case.get("props").cloned().unwrap_or(serde_json::json!([]))
         ));
+        set_alloc_residues(&case["bases"]);
         let mut stk = Some(Stakker::new(process_base));
         let d = stk.as_ref().unwrap().deferrer();
         w(|w| w.deferrer = Some(d));
